@@ -19,7 +19,11 @@ Record wg_case := WGCase {
   wc_progs : list (list call);
   wc_sched : list nat;
   wc_obs : list witem;
-  wc_tmo : nat
+  wc_tmo : nat;
+  wc_probes : list (nat * nat)   (* (position, 4*wt + wc): WaitTimeout / WaitCTX(cancelled
+                                    context) called right after that position;
+                                    wt: 0 nil, 1 ErrWGTimeout, 2 hung, 3 not called;
+                                    wc: 0 nil, 1 the context's error, 2 hung, 3 not called *)
 }.
 
 (* compact constructor used by the generated case files *)
@@ -32,7 +36,8 @@ Definition ti (tid : nat) (e : ev) (count : Z) (cl : list nat) (site : nat) : wi
    constructor form).  Field stream (signed values are offset by 2048):
      nthreads, per thread: ncalls, per call: kind (0 add, 1 wait), delta;
      tmo, nsteps, per step: tid, event (0 call, 1 ret, 2 tau, 3 stutter, 4 ret-panic),
-     call kind, call delta, value, Count(), site, nclosed, closed...
+     call kind, call delta, value, Count(), site, nclosed, closed...;
+     nprobes, per probe: position, code
    [decode_case] is part of the judge (no theorem is about it); it is exercised by every
    corpus entry: a wrong decoding shows up as a difference from the model.                    *)
 (* 12 bits of a primitive integer as a binary number (no unary numbers above a few hundred) *)
@@ -108,19 +113,33 @@ Definition dec_ev (e k d v : N) : option ev :=
   | _ => None
   end.
 
-Fixpoint dec_steps (n : nat) (l : list N) : option (list witem) :=
+Fixpoint dec_steps (n : nat) (l : list N) : option (list witem * list N) :=
   match n with
-  | O => Some []
+  | O => Some ([], l)
   | S n' =>
       match l with
       | tid :: e :: k :: d :: v :: cnt :: site :: ncl :: r =>
           match dec_ev e k d v, take_n (nn ncl) r with
           | Some e', Some (cl, r') =>
               match dec_steps n' r' with
-              | Some its => Some (Item (nn tid) e' (sgn cnt, cl) (nn site) :: its)
+              | Some (its, r'') => Some (Item (nn tid) e' (sgn cnt, cl) (nn site) :: its, r'')
               | None => None
               end
           | _, _ => None
+          end
+      | _ => None
+      end
+  end.
+
+Fixpoint dec_probes (n : nat) (l : list N) : option (list (nat * nat)) :=
+  match n with
+  | O => Some []
+  | S n' =>
+      match l with
+      | pos :: code :: r =>
+          match dec_probes n' r with
+          | Some ps => Some ((nn pos, nn code) :: ps)
+          | None => None
           end
       | _ => None
       end
@@ -208,8 +227,12 @@ Definition decode_case (l : list int) : option wg_case :=
       match dec_progs (nn nt) r with
       | Some (ps, tmo :: ns :: r') =>
           match dec_steps (nn ns) r' with
-          | Some its => Some (WGCase ps (map (fun it => it_tid it) its) its (nn tmo))
-          | None => None
+          | Some (its, np :: r'') =>
+              match dec_probes (nn np) r'' with
+              | Some prs => Some (WGCase ps (map (fun it => it_tid it) its) its (nn tmo) prs)
+              | None => None
+              end
+          | _ => None
           end
       | _ => None
       end
@@ -242,6 +265,21 @@ Definition tmo_model (c : wg_case) : bool :=
          Nat.eqb v (if Z.eqb (cnt (sh cf)) 0 then 0 else 1)
   end.
 
+(* WaitTimeout / WaitCTX called in the middle of the schedule: judged when no Add is in flight
+   at that position.  With sum > 0 WaitTimeout must time out and WaitCTX must return the context's
+   error (the deadline is honoured whatever the count is); with sum = 0 WaitTimeout returns nil
+   and WaitCTX may return either (both cases of its select are ready).  Neither may hang. *)
+Definition probe_ok (t : trace) (pr : nat * nat) : bool :=
+  let p := prefix_upto t (fst pr) in
+  if is_nil (adds_in_flight p) then
+    let z := Z.eqb (sum_deltas p) 0 in
+    let wt := Nat.div (snd pr) 4 in
+    let wc := Nat.modulo (snd pr) 4 in
+    (Nat.eqb wt 3 || Nat.eqb wt (if z then 0 else 1)) &&
+    (Nat.eqb wc 3 || (if z then Nat.leb wc 1 else Nat.eqb wc 1))
+  else true.
+Definition probes_ok (c : wg_case) : bool := forallb (probe_ok (obs_trace c)) (wc_probes c).
+
 Definition in_domain (c : wg_case) : bool := well_behaved (obs_trace c).
 (* a recorded trace that does not respect the per-thread call discipline cannot come from a
    correct harness run: it is reported as a correspondence failure (code 2).  For well-formed
@@ -254,7 +292,8 @@ Definition c01_judge (c : wg_case) : nat :=
   else 0%nat.
 Definition c02_judge (c : wg_case) : nat :=
   if in_domain c then
-    if obs_wf c then verdict (c02_ok (obs_trace c) && tmo_ok c) (model_eq c && tmo_model c)
+    if obs_wf c then verdict (c02_ok (obs_trace c) && tmo_ok c && probes_ok c)
+                             (model_eq c && tmo_model c)
     else 2%nat
   else 0%nat.
 
@@ -263,7 +302,8 @@ Definition c02_judge (c : wg_case) : nat :=
 Definition c01_judge_orig (c : wg_case) : nat :=
   if in_domain c then verdict (c01_ok (obs_trace c)) (model_eq_orig c) else 0%nat.
 Definition c02_judge_orig (c : wg_case) : nat :=
-  if in_domain c then verdict (c02_ok (obs_trace c) && tmo_ok c) (model_eq_orig c) else 0%nat.
+  if in_domain c then verdict (c02_ok (obs_trace c) && tmo_ok c && probes_ok c) (model_eq_orig c)
+  else 0%nat.
 
 (* cross-check of the two formulations of the C01 monitor on an observed trace: 0 = agree *)
 Definition mon_agree (c : wg_case) : nat :=
@@ -279,7 +319,8 @@ Definition c01_trace_judge (c : wg_case) : nat :=
   else 0%nat.
 Definition c02_trace_judge (c : wg_case) : nat :=
   if in_domain c then
-    if obs_wf c then (if c02_ok (obs_trace c) && tmo_ok c then 0%nat else 1%nat) else 2%nat
+    if obs_wf c then (if c02_ok (obs_trace c) && tmo_ok c && probes_ok c then 0%nat else 1%nat)
+    else 2%nat
   else 0%nat.
 
 (* model-only correspondence (spec ignored): used to tell apart code 2 from code 1 causes *)
